@@ -5,6 +5,11 @@ def srt(nf, tiers):
         incdirs=["bin/gensquashfs/src"], defines=dict(MODE=1, NF=nf), unwind=nf + 2, tiers=tiers, timeout=300, reach=["sorted"],
         functions=["sort_file_list (bin/gensquashfs/src/sort_by_file.c)"], bound="%d files with arbitrary signed 64 bit priorities (ties included)" % nf)
 OBLIGATIONS += [srt(2, ["quick", "thorough"]), srt(3, ["quick", "thorough"]), srt(4, ["quick", "thorough"]), srt(5, ["thorough"])]
+def sname(nb, tiers):
+    return dict(name="sort_file_name_decoding_nb%d" % nb, harness="harness/C17_sort.c", sources=["lib/util/src/canonicalize_name.c"], included_sources=["bin/gensquashfs/src/sort_by_file.c"],
+        incdirs=["bin/gensquashfs/src"], defines=dict(MODE=3, NB=nb), unwind=nb + 3, tiers=tiers, timeout=300, reach=["quoted", "plain", "rejected"],
+        functions=["decode_filename (bin/gensquashfs/src/sort_by_file.c)", "canonicalize_name"], bound="every NUL terminated buffer content of up to %d bytes (all byte values)" % nb)
+OBLIGATIONS += [sname(4, ["quick", "thorough"]), sname(6, ["thorough"])]
 OBLIGATIONS.append(dict(name="procblock_flags_bs4", harness="harness/C17_procblock.c", sources=["lib/util/src/is_memory_zero.c", "lib/util/src/alloc.c"],
     included_sources=["lib/sqfs/src/block_processor/block_processor.c"], defines=dict(BS=4), unwind=8, unwindset={"vp_cmp_init.0": 5, "vp_cmp_init.1": 5},
     tiers=["quick", "thorough"], timeout=300, fp_map={"do_block": ["cs_do_block"]},
